@@ -989,7 +989,7 @@ class Path:
             fcs = self.callees_of(c)
             for cfc in fcs:
                 for loc in cfc.modifies_l:
-                    if not self.havoc_modloc_precise(loc, cfc, c, field_names_written):
+                    if not self.havoc_modloc_precise(loc, cfc, c, field_names_written, names):
                         self.havoc_modloc_coarse(loc, cfc)
         # ghost fields written by loop ghost statements
         k = self.loop_index(loopnode)
@@ -1091,7 +1091,7 @@ class Path:
         self.wf(v)
         self.env.heap[key] = z3.Store(self.env.heap[key], ref_t, v.t)
 
-    def havoc_modloc_precise(self, loc, cfc, callnode, written_fields):
+    def havoc_modloc_precise(self, loc, cfc, callnode, written_fields, written_names=()):
         """callee frame location `self.a.b` / `p.a` where the receiver / argument is a stable expression of the caller:
         havoc exactly that cell.  Returns False when the location cannot be resolved (caller then havocs the field)."""
         try:
@@ -1126,7 +1126,8 @@ class Path:
                 else:
                     return False
             for m in ast.walk(base):
-                if isinstance(m, ast.Name) and m.id != self.selfname and m.id not in self.fc.params:
+                if isinstance(m, ast.Name) and m.id != self.selfname and m.id not in self.fc.params \
+                        and (m.id in written_names or m.id not in self.env.locals):
                     return False       # depends on a local that may change inside the loop
                 if isinstance(m, ast.Attribute) and m.attr in written_fields:
                     return False
@@ -1526,6 +1527,10 @@ class Path:
         # module constants
         if isinstance(n.value, ast.Name) and n.value.id == "math" and n.attr == "inf":
             return V(z3.IntVal(10 ** 18), INT) if False else self._inf()
+        if isinstance(n.value, ast.Name) and n.value.id not in env.locals and n.value.id not in env.binders \
+                and n.value.id not in self.unit.classes and n.value.id in ("mmap", "os", "sys", "queue", "math", "multiprocessing"):
+            # module-level constant (mmap.ACCESS_READ, os.linesep, sys.stderr ...): an opaque value
+            return V(z3.Const("modconst_%s_%s" % (n.value.id, n.attr), z(ANY)), ANY)
         recv = self.ev(n.value, env)
         if isinstance(recv.s, RefS):
             d = self.eng.field_decl(recv.s.cls, n.attr)
